@@ -145,6 +145,16 @@ def cat_framework(model, spec):
         m = X.clone(model)
         X.set_cell(m, "Parameters", "f1", "Function", "f2*2")
         add("cyclic-functions", "reject", "Parameters/f1<->f2", m)
+    # circular dependencies through a population aggregation
+    if "f1" in X.rows(model, "Parameters") and "f2" in X.rows(model, "Parameters"):
+        for agg in ("SRC_POP_AVG", "SRC_POP_SUM", "TGT_POP_AVG", "TGT_POP_SUM"):
+            m = X.clone(model)
+            X.set_cell(m, "Parameters", "f1", "Function", f"{agg}(f2)")
+            X.set_cell(m, "Parameters", "f2", "Function", "f1*2")
+            add("cyclic-functions-through-aggregation", "reject", f"Parameters/f1={agg}(f2), f2=f1*2", m)
+            m = X.clone(model)
+            X.set_cell(m, "Parameters", "f2", "Function", f"{agg}(f2)")
+            add("self-referencing-aggregation", "reject", f"Parameters/f2={agg}(f2)", m)
     # duplicate code names and display names (adjacent pairs on every sheet, and across sheets)
     for sheet in ("Compartments", "Parameters", "Characteristics"):
         rs = X.rows(model, sheet)
@@ -431,6 +441,12 @@ def run_databook_mutations(case):
                         name = ws.cell(row=c.row, column=1).value
                         pop = ws.cell(row=r, column=1).value
                         muts.append(("unit-mismatch", "reject", f"{title}/{name}/{pop}", [(title, coord_u, "Bananas (per year)")]))
+                        u0 = ws.cell(row=r, column=3).value
+                        if isinstance(u0, str) and "(per year)" in u0:
+                            # same base unit, different timescale
+                            muts.append(("unit-timescale-mismatch", "reject", f"{title}/{name}/{pop}", [(title, coord_u, u0.replace("(per year)", "(per day)"))]))
+                        if isinstance(u0, str) and u0.strip().lower() == "probability (per year)":
+                            muts.append(("unit-mismatch", "reject", f"{title}/{name}/{pop}", [(title, coord_u, "Rate (per year)")]))
                         muts.append(("unknown-population", "reject", f"{title}/{name}/{pop}", [(title, ws.cell(row=r, column=1).coordinate, "Nobody")]))
                         # blank every value in the row (assumption and years)
                         edits = []
